@@ -219,7 +219,11 @@ class BaseNetref(with_metaclass(NetrefMetaclass, object)):
             if self.____id_pack__[2] == 0:
                 # outside the context of `__instancecheck__`, `__class__` is expected to be type(self)
                 # within the context of `__instancecheck__`, `other` should be compared to the proxied class
-                return isinstance(other, type(self).__dict__['__class__'].instance)
+                descriptor = type(self).__dict__['__class__']
+                if descriptor is None:
+                    # the proxied class cannot be resolved on this side: the class itself answers
+                    return syncreq(self, consts.HANDLE_CALLATTR, '__instancecheck__', (other,), ())
+                return isinstance(other, descriptor.instance)
             else:
                 raise TypeError("isinstance() arg 2 must be a class, type, or tuple of classes and types")
 
